@@ -12,6 +12,8 @@ shift of the rest.  The points where the code departs from the statement are kep
 -/
 import Comrak.Lemmas.FrontMatter
 import Comrak.Lemmas.Feed
+import Comrak.Lemmas.R2FrontMatter
+import Comrak.Lemmas.R2CmPrefix
 namespace Comrak.C20
 open Comrak Bytes Comrak.FrontMatter Comrak.Feed
 
@@ -249,6 +251,99 @@ theorem unrecognised_is_ordinary (s d : Bytes) (h : splitOffFrontMatter s d = no
     parseDoc (some d) s = parseDoc none s := by
   simp [parseDoc, h]
 
+/-! ### Renderer half: what the three formatter models do with the `FrontMatter` node
+
+`doc spd fm sp rest` is the tree the parser builds when it recognises front matter: a document
+whose first child is the `FrontMatter` node (payload `fm`), followed by the blocks of the rest. -/
+
+/-- A document node with the given children. -/
+def docOf (spd : Sp) (cs : Forest) : Tree := .node .document spd cs
+/-- The front matter node (a leaf). -/
+def fmNode (fm : Bytes) (sp : Sp) : Tree := .node (.frontMatter fm) sp .nil
+
+/-- **HTML, node level** (`render_frontmatter`): in every context and writer state, for every
+    option vector, the node contributes no token and leaves the writer state untouched. -/
+theorem html_front_matter_absent (o : HtmlOpts) (nt : NormTable) (cx : Ctx) (fm : Bytes) (sp : Sp) (st : St) :
+    renderT o nt cx (fmNode fm sp) st = ([], st) :=
+  renderT_frontMatter o nt cx fm sp st
+
+/-- **HTML, document level.** The tokens of `Document [FrontMatter fm, rest…]` are exactly the
+    tokens of `Document [rest…]`, for every option vector and every `rest` (no shape hypothesis:
+    the following siblings see another `prev`/`index`, but `prev` matters only to the
+    `<thead>`/`<tbody>` choice of a table row, for which a front matter predecessor counts like
+    none, and `index` only to a cell, through its grandparent's alignments, which a child of
+    the root does not have). -/
+theorem html_front_matter_absent_doc (o : HtmlOpts) (nt : NormTable) (fm : Bytes) (spd sp : Sp) (rest : Forest) :
+    renderToks o nt (docOf spd (.cons (fmNode fm sp) rest)) = renderToks o nt (docOf spd rest) := by
+  unfold renderToks docOf fmNode W.seq
+  simp only [renderT_doc_frontMatter]
+
+/-- ... hence the same bytes. -/
+theorem html_front_matter_absent_bytes (o : HtmlOpts) (nt : NormTable) (fm : Bytes) (spd sp : Sp) (rest : Forest) :
+    renderHtml o nt (docOf spd (.cons (fmNode fm sp) rest)) = renderHtml o nt (docOf spd rest) := by
+  unfold renderHtml; rw [html_front_matter_absent_doc]
+
+/-- **XML, node level.** In XML the node is *not* absent: it is one self-closing element
+    `<frontmatter />` (with the position attribute when asked for).  The payload is never
+    written (`NodeValue::FrontMatter(_) => ()` in `format_node`). -/
+theorem xml_front_matter_is_empty_element (o : XmlOpts) (ind : Nat) (cx : XCtx) (fm : Bytes) (sp : Sp) :
+    renderXmlT o ind cx (fmNode fm sp) = [.empty ind XS.e_frontmatter (xmlSpAttr o sp)] :=
+  renderXmlT_frontMatter o ind cx fm sp
+
+/-- **XML, document level.** With a non-empty rest, the tokens of `Document [FrontMatter fm,
+    rest…]` are the tokens of `Document [rest…]` with the one `<frontmatter />` line inserted
+    right after the document start tag; everything else is identical (the shifted sibling index
+    is only read by cells of a header row, which are not children of the root). -/
+theorem xml_front_matter_one_element_doc (o : XmlOpts) (fm : Bytes) (spd sp : Sp) (r : Tree) (rs : Forest) :
+    ∃ hd body,
+      renderXmlToks o (docOf spd (.cons r rs)) = hd :: body ∧
+      renderXmlToks o (docOf spd (.cons (fmNode fm sp) (.cons r rs)))
+        = hd :: .empty 2 XS.e_frontmatter (xmlSpAttr o sp) :: body := by
+  refine ⟨.opn 0 XS.e_document (xmlAttrs o {} .document spd),
+    renderXmlF o 2 (some .document) none 0 (.cons r rs) ++ [.close 0 XS.e_document], ?_, ?_⟩
+  · simp [renderXmlToks, docOf, renderXmlT, xmlLiteral, xmlName, Forest.isNil]
+  · have hi := renderXmlF_index_irrel o 2 (some .document) none (by simp) (.cons r rs) 1 0
+    have hf := renderXmlT_frontMatter o 2 { parent := some .document, grand := none, index := 0 } fm sp
+    simp only [renderXmlToks, docOf, fmNode, renderXmlT, xmlLiteral, xmlName, Forest.isNil] at hf ⊢
+    simp only [Bool.false_eq_true, if_false, Nat.zero_add, List.cons.injEq, true_and]
+    rw [renderXmlF]
+    simp only [renderXmlT, xmlLiteral, xmlName, Forest.isNil, if_true, Nat.zero_add] at hf hi ⊢
+    rw [hi, hf]
+    rfl
+
+/-- The XML of the document with front matter is never the XML of the rest alone. -/
+theorem xml_front_matter_not_absent (o : XmlOpts) (fm : Bytes) (spd sp : Sp) (r : Tree) (rs : Forest) :
+    renderXmlToks o (docOf spd (.cons (fmNode fm sp) (.cons r rs))) ≠ renderXmlToks o (docOf spd (.cons r rs)) := by
+  obtain ⟨hd, body, h1, h2⟩ := xml_front_matter_one_element_doc o fm spd sp r rs
+  rw [h1, h2]
+  intro h
+  have := congrArg List.length h
+  simp at this
+
+/-- **CommonMark, the node alone** (`format_front_matter` on a fresh writer): for every option
+    vector, whatever the width, the buffer holds exactly the payload. -/
+theorem cm_front_matter_alone (o : Cm.CmOpts) (fm : Bytes) (spd sp : Sp) :
+    Cm.renderCm o (docOf spd (.cons (fmNode fm sp) .nil)) = Cm.finalBytes fm.reverse := by
+  rw [Cm.renderCm_eq_finalBytes]
+  unfold docOf fmNode
+  rw [Cm.renderT_doc_fm_nil, Cm.output_frontMatter_fresh_rv]
+
+/-- ... in particular a payload that ends with a line feed (every front matter block that is
+    followed by anything does) is reproduced exactly. -/
+theorem cm_front_matter_alone_lf (o : Cm.CmOpts) (body : Bytes) (spd sp : Sp) :
+    Cm.renderCm o (docOf spd (.cons (fmNode (body ++ [0x0A]) sp) .nil)) = body ++ [0x0A] := by
+  rw [cm_front_matter_alone]
+  simp [Cm.finalBytes]
+
+/-- **CommonMark, verbatim at the top.** For every option vector (every `width`, not only 0),
+    every payload and every following siblings: the CommonMark rendering of
+    `Document [FrontMatter fm, rest…]` starts with `fm`, byte for byte.  (Nothing written later
+    reaches back: pending newlines, prefixes and escapes only append, and the re-wrap at the last
+    breakable space happens at a position recorded after the payload was written.) -/
+theorem cm_front_matter_verbatim (o : Cm.CmOpts) (fm : Bytes) (spd sp : Sp) (rest : Forest) :
+    fm <+: Cm.renderCm o (docOf spd (.cons (fmNode fm sp) rest)) :=
+  Cm.renderCm_frontMatter_prefix o fm spd sp rest
+
 /-! ### Where the code departs from the statement (known findings) -/
 
 /-- `---\rfoo\r---\rt`: CR-only line endings are not recognised (C08 finding), the LF form is. -/
@@ -302,5 +397,16 @@ example : isPrefixB [0x2D] (stripBom [0x20, 0x2D, 0x0A, 0x61, 0x0A, 0x2D, 0x0A])
 example : splitOffFrontMatter [0x2D, 0x20, 0x0A, 0x61, 0x0A, 0x2D, 0x0A] [0x2D] = none := by decide
 example : splitOffFrontMatter [0x2D, 0x0A, 0x61, 0x0A] [0x2D] = none := by decide
 example : splitOffFrontMatter [0x2D, 0x0A, 0x61, 0x0A, 0x2D, 0x78, 0x0A] [0x2D] = none := by decide
+
+-- renderer half: "-\na\n-\n" + paragraph "x"; HTML has no trace, XML has the element, CommonMark starts with it
+example : renderHtml {} {} (docOf {} (.cons (fmNode [0x2D, 0x0A, 0x61, 0x0A, 0x2D, 0x0A] {})
+      (.cons (.node .paragraph {} (.cons (.node (.text [0x78]) {} .nil) .nil)) .nil)))
+    = [0x3C, 0x70, 0x3E, 0x78, 0x3C, 0x2F, 0x70, 0x3E, 0x0A] := by decide
+example : Cm.renderCm {} (docOf {} (.cons (fmNode [0x2D, 0x0A, 0x61, 0x0A, 0x2D, 0x0A] {})
+      (.cons (.node .paragraph {} (.cons (.node (.text [0x78]) {} .nil) .nil)) .nil)))
+    = [0x2D, 0x0A, 0x61, 0x0A, 0x2D, 0x0A, 0x78, 0x0A] := by decide
+example : renderXmlToks {} (docOf {} (.cons (fmNode [0x2D] {}) .nil))
+    = [.opn 0 XS.e_document [xAttr XS.a_xmlns XS.v_xmlns], .empty 2 XS.e_frontmatter [], .close 0 XS.e_document] := by
+  decide
 
 end Comrak.C20
